@@ -161,20 +161,43 @@ func c05R1(c *Ctx, r *Report) {
 		r.Fail("C05-R1", "anchor Put callback", "-", "callback literal of Put not found")
 		return
 	}
-	leafCalls := c.Calls(putLit, false, nameIs("(db.RevTree).isLeaf"))
-	var leafTrue []Edge
-	for _, lc := range leafCalls {
-		lv := valueOfCall(lc)
-		pos, _ := EdgesOnValue(putLit, func(v ssa.Value) bool { return v == lv })
-		leafTrue = append(leafTrue, pos...)
+	// the leaf test may live in the callback itself or in a helper that only the callback calls (followed to depth 2)
+	cands := []*ssa.Function{putLit}
+	for depth, frontier := 0, []*ssa.Function{putLit}; depth < 2; depth++ {
+		var next []*ssa.Function
+		for _, f := range frontier {
+			EachInstr(f, false, func(in ssa.Instruction) {
+				if ci, ok := in.(ssa.CallInstruction); ok {
+					if cal := ci.Common().StaticCallee(); cal != nil && cal.Parent() == nil && ctxFns[cal] && len(cal.Blocks) > 0 {
+						next = append(next, cal)
+						cands = append(cands, cal)
+					}
+				}
+			})
+		}
+		frontier = next
 	}
-	ics := c.Calls(putLit, false, nameIs("(*db.DatabaseCollectionWithUser).IsIllegalConflict"))
-	for i, ic := range ics {
-		ok := len(leafTrue) > 0 && DominatedBy(putLit, ic, NewAvoid().AddEdge(leafTrue...))
-		r.Check("C05-R1", fmt.Sprintf("fn=(*db.DatabaseCollectionWithUser).Put$callback accept-parent #%d only-on=isLeaf(parent)", i+1), c.Pos(ic.Pos()), ok,
-			"a client-supplied parent is accepted only if it is a leaf of the freshly read tree", "Put can accept a client-supplied parent revision that is not a leaf: two acknowledged children of one parent become possible")
+	found := false
+	for _, host := range cands {
+		leafCalls := c.Calls(host, false, nameIs("(db.RevTree).isLeaf"))
+		ics := c.Calls(host, false, nameIs("(*db.DatabaseCollectionWithUser).IsIllegalConflict"))
+		if len(leafCalls) == 0 || len(ics) == 0 {
+			continue
+		}
+		found = true
+		var leafTrue []Edge
+		for _, lc := range leafCalls {
+			lv := valueOfCall(lc)
+			pos, _ := EdgesOnValue(host, func(v ssa.Value) bool { return v == lv })
+			leafTrue = append(leafTrue, pos...)
+		}
+		for i, ic := range ics {
+			ok := len(leafTrue) > 0 && DominatedBy(host, ic, NewAvoid().AddEdge(leafTrue...))
+			r.Check("C05-R1", fmt.Sprintf("fn=(*db.DatabaseCollectionWithUser).Put$callback accept-parent #%d only-on=isLeaf(parent)", i+1), c.Pos(ic.Pos()), ok,
+				"a client-supplied parent is accepted only if it is a leaf of the freshly read tree", "Put can accept a client-supplied parent revision that is not a leaf: two acknowledged children of one parent become possible")
+		}
 	}
-	if len(ics) == 0 || len(leafCalls) == 0 {
+	if !found {
 		r.Fail("C05-R1", "fn=(*db.DatabaseCollectionWithUser).Put$callback leaf-test", c.Pos(putLit.Pos()), "the leaf test / conflict test on the supplied parent revision is missing")
 	}
 }
